@@ -143,6 +143,9 @@ func checkEP(ctx *pbt.Ctx, c EP) error {
 		return nil
 	}
 	nTx := len(models)
+	if elems > 10000 || nTx > 10000 {
+		defer lowMemory()()
+	}
 
 	// ---- the byte string ----
 	var cat []byte
